@@ -77,7 +77,7 @@ class S1Client(BaseClient):
             # value-level guard (membership / isinstance / comparison on the parameter itself)
             if not any(isinstance(x, ast.Call) and not (isinstance(x.func, ast.Name) and x.func.id in ("isinstance", "len", "callable"))
                        for x in ast.walk(test)):
-                return frozenset({w | {("V", n) for n in g[1]} for w in S})
+                return frozenset({frozenset(f for f in w if not (f[0] == "T" and f[1] in g[1])) | {("V", n) for n in g[1]} for w in S})
         return S
 
     def tainted(self, expr, w):
@@ -682,6 +682,11 @@ class NoneClient(BaseClient):
                 if isinstance(x, ast.Subscript) or k != "self":
                     bad.append((k, x))
 
+    def observe(self, expr, S, stmt):
+        for w in S:
+            for k, x in self.uses(expr, set(w)):
+                self.hook(stmt, k, x)
+
     def transfer(self, s, S):
         out = set()
         for w in S:
@@ -899,7 +904,7 @@ MANIFEST = {
             "validated before the first store (so a rejected assignment leaves the object unchanged), the documented shape agrees with the validator "
             "configuration, each passed constraint is consulted on every accepting path of the validator (path enumeration with the call site's "
             "literal arguments), None results never reach arithmetic, constructors go through the setters, and stored arrays are fresh copies. "
-            "Value-level read-back equality is not decided. Also decided: documented relational constraints are enforced, every validator has a type gate, validators return fresh arrays.",
+            "Value-level read-back equality is not decided. Also decided: documented relational constraints are enforced, every validator has a type gate, validators return fresh arrays. Round 3: membership-validated setters store the value they tested (S10), validated values are stored verbatim in the property's own attribute (S11), the translation of conversion failures into the input error is total (S12), the field_func probe has at least two rows and its shape is what the output is compared with (S13); None-flow understands conditional expressions and short-circuit guards and looks at if/for heads.",
     "design_ref": "DESIGN.md §3 C17",
     "note": "Trusted: python ast; validators are recognised by name (check_*/validate_*) in magpylib._src.input_checks; triaged lazy style validation.",
     "technique": "static analysis: taint-style dataflow on a structured CFG, path enumeration with partial evaluation, table cross-check, alias analysis",
